@@ -78,6 +78,11 @@ def run(s):
         ids = gen.Ids('E%d.' % h)
         env_ = {'mos_id': None, 'ncs_id': 'NCS'} if rng.random() < 0.4 else {}      # an envelope without <mosID>
         msgs = [B.msg_doc('roDelete', 50, ro_id=rng.choice(['RO', 'ELSEWHERE', 'ELSEWHERE']), **env_)]
+        if h % 3 == 1:
+            # the roDelete envelope has no messageID element at all
+            import re
+            msgs[0] = re.sub(r'\s*<messageID>[^<]*</messageID>', '', msgs[0], count=1)
+            s.hist['roDelete_without_messageID'] += 1
         msgs += [gen.rand_message(rng, Abs(ro_txt), rng.choice(B.ALL_KINDS), 60 + k, ids, pool=pool) for k in range(2)]
         msgs += [B.msg_doc('roDelete', 70, ro_id=rng.choice(['RO', 'ELSEWHERE']))]
         for m_ in msgs:
